@@ -319,8 +319,10 @@ def _r5(run):
     if g is not None:
         run.note_func(g)
         rg = ev.run(g.node)
-        joins = [e for e in rg.events if e.kind == "assign" and e.term[1][0] == ("sym", "index_path")]
-        ok = any(("const", SENTINEL) in atoms_of(e.term[1][1]) for e in joins)
+        # a file opened for writing whose path ends in the sentinel name
+        joins = [e for e in rg.events if e.kind in ("with", "call") and e.term[0] == "call" and e.term[1] == ("sym", "open") and e.term[2]
+                 and any(a_ in (("const", "wt"), ("const", "w"), ("const", "wb")) for a_ in list(e.term[2][1:]) + [v for k, v in e.term[3]])]
+        ok = any(("const", SENTINEL) in atoms_of(e.term[2][0]) for e in joins)
         if ok:
             run.holds("C18.R5", g, joins[0].node, "approve writes '%s' next to index_rel.wtml" % SENTINEL)
         else:
